@@ -113,7 +113,12 @@ def strLt : List Char → List Char → Bool
   | _ :: _, [] => false
   | a :: r, b :: s => if a.toNat < b.toNat then true else if b.toNat < a.toNat then false else strLt r s
 
-def opLt (a b : Op) : Bool := strLt a.path b.path || (a.path == b.path && methodRank a.method < methodRank b.method)
+/-- webhooks (display path `webhooks/<name>`) are a second source, ingested after all HTTP operations -/
+def isWebhook (o : Op) : Bool := "webhooks/".toList.isPrefixOf o.path
+
+def opLt (a b : Op) : Bool :=
+  if isWebhook a != isWebhook b then isWebhook b
+  else strLt a.path b.path || (a.path == b.path && methodRank a.method < methodRank b.method)
 
 def insertOp (o : Op) : List Op → List Op
   | [] => [o]
